@@ -479,7 +479,7 @@ class FlowIRExperimentConfiguration:
                       f"variable_files={variable_files}, variable_substitute={variable_substitute}")
 
         if validate and self._original_flowir_0 == FlowIRExperimentConfiguration._NoFlowIR:
-            experiment.model.errors.ExperimentMissingConfigurationError(f"Missing configuration")
+            raise experiment.model.errors.ExperimentMissingConfigurationError(f"Missing configuration")
 
         systemvars = systemvars or {}
         config_patches = config_patches or {}
